@@ -51,10 +51,58 @@ def _prefix(rule):
     return p[:3] if len(p) > 3 else p
 
 
-def _problems(rep, pid, rules, known):
+def closure_of(ctx, pid):
+    """Functions reachable from the entry points of a property."""
+    key = "closure:" + pid
+    if key not in ctx.cache:
+        entries = [q for q in P.ENTRY_POINTS.get(pid, ())
+                   if ctx.model.has_func(q)]
+        ctx.cache[key] = ctx.res.reachable(entries) if entries else set()
+    return ctx.cache[key]
+
+
+def _func_of_key(key):
+    """module.py:Qualified.function:... -> module.Qualified.function"""
+    parts = key.split(":")
+    if len(parts) >= 2 and parts[0].endswith(".py"):
+        return parts[0][:-3] + "." + parts[1]
+    return None
+
+
+def obs_for(ctx, pid):
+    """Obligations of a property: those tagged with it, plus (dependency-
+    based attribution, props.py) the obligations of the core rules whose
+    construct lies in a function its operations reach."""
+    rep = ctx.rep
+    out = [o for o in rep.obs if pid in o.props]
+    if pid in P.ENTRY_POINTS:
+        clo = closure_of(ctx, pid)
+        core = set(P.CORE_RULES)
+        have = {id(o) for o in out}
+        for o in rep.obs:
+            if id(o) in have or o.verdict == "note":
+                continue
+            r0 = o.rule.split(".")[0]
+            if not (r0 in core or (r0 == "R13" and ("R13ab" in core))):
+                continue
+            fq = _func_of_key(o.key)
+            if fq is not None and fq in clo:
+                out.append(o)
+    return out
+
+
+def rules_for(pid):
+    rules = list(P.PROPS[pid]["rules"])
+    if pid in P.ENTRY_POINTS:
+        rules += [r for r in P.CORE_RULES if r not in rules]
+    return rules
+
+
+def _problems(ctx_, pid, rules, known):
     """-> ({sub-rule: [violating obs]}, {rule prefix: [error text]})"""
+    rep = ctx_.rep
     bad = {}
-    for o in rep.for_prop(pid):
+    for o in obs_for(ctx_, pid):
         if o.verdict == "violation" and R.match_known(o, pid, known) is None:
             bad.setdefault(o.rule, []).append(o)
     errs = {}
@@ -76,11 +124,11 @@ def gather(ctx, pid):
     -> (obligations, [(rule, error text)], [sub-rules decided on the
     canonical form])"""
     spec = P.PROPS[pid]
-    rules = spec["rules"]
+    rules = rules_for(pid)
     known = R.load_known()
     rep = run_rules(ctx, rules)
-    obs = rep.for_prop(pid)
-    bad, errs = _problems(rep, pid, rules, known)
+    obs = obs_for(ctx, pid)
+    bad, errs = _problems(ctx, pid, rules, known)
     if not (bad or errs) or ctx.model.canon:
         return obs, [e for v in errs.values() for e in v], []
     ctx2 = ctx.cache.get("canon_ctx")
@@ -91,8 +139,8 @@ def gather(ctx, pid):
             return obs, [e for v in errs.values() for e in v], []
         ctx.cache["canon_ctx"] = ctx2
     rep2 = run_rules(ctx2, rules)
-    obs2 = rep2.for_prop(pid)
-    bad2, errs2 = _problems(rep2, pid, rules, known)
+    obs2 = obs_for(ctx2, pid)
+    bad2, errs2 = _problems(ctx2, pid, rules, known)
     cleared = []
     for pre in list(errs):
         mine = [o for o in obs2 if _prefix(o.rule) == pre]
@@ -192,7 +240,7 @@ def decide(ctx, pid, tier, seed, t0, cmd, quiet=False, write=True):
                   known_reported else "HOLDS apart from %d listed known "
                   "finding(s)" % len(known_reported), 1: "VIOLATED",
                   2: "ANALYSIS-ERROR"}[status], len(obs),
-            len(spec["rules"]), wall))
+            len(rules_for(pid)), wall))
     return status, out
 
 
